@@ -140,9 +140,21 @@ def ro_case(draw, families=None, exact_only=False, max_cons=4, allow_eq=True, al
             if draw(st.booleans()):
                 # the same objective written as maxof(p0 - g, p1 - g, ...) + g with a common affine term g(x) taken out
                 obj['pw_shift'] = {'g': _vec(draw, nx), 'g0': float(draw(st.integers(-2, 2))), 'side': draw(st.sampled_from(['right', 'left', 'sub']))}
+    late_rvar = draw(st.sampled_from([0, 0, 0, 1, 2]))
+    if late_rvar == 2 and ny:
+        # the sets get one more half-space g.z <= h that the model will state as a budget row 'w.sum() + g.z <= h' through a
+        # non-negative random array w declared late: the projection onto z is the same set
+        for s_ in sets:
+            if any(p_['t'] in ('kl', 'budget') for p_ in s_['pieces']):
+                continue
+            g = [float(draw(st.integers(-1, 1))) for _ in range(s_['nz'])]
+            if not any(g):
+                g[0] = 1.0
+            s_['pieces'].append({'t': 'poly', 'G': [g], 'h': [float(np.dot(g, s_['centre'])) + draw(st.sampled_from([0.25, 0.5, 1.0]))],
+                                 'style': 'le', 'via_late': True})
     case = {'nx': nx, 'ny': ny, 'nz': nz, 'nu': nu, 'ymask': ymask, 'sets': sets, 'cons': cons,
             'xlo': xlo, 'xhi': xhi, 'obj': obj, 'witness': {'x': xbar, 'y0': ybar, 'Y': Ybar},
-            'set_arg': draw(st.sampled_from(['list', 'tuple', 'varargs'])), 'late_rvar': draw(st.sampled_from([0, 0, 0, 1, 2])),
+            'set_arg': draw(st.sampled_from(['list', 'tuple', 'varargs'])), 'late_rvar': late_rvar,
             'adapt_style': draw(st.sampled_from(['whole', 'entry', 'mixed'])),
             'xbound_style': draw(st.sampled_from(['bounds', 'rows']))}
     fill_constants(case)
@@ -292,25 +304,28 @@ def build(case, order=None):
                     for j in range(n):
                         if cols[j]:
                             y[k].adapt(rv[j])
-    sets_rs = [rosets.rsome_constraints(s, z, u) for s in case['sets']]
+    late = bool(case.get('late_rvar') and ny)
+    sets_rs = [rosets.rsome_constraints(s, z, u, skip_via_late=late) for s in case['sets']]
+    pre_exprs = {}
     if case.get('late_rvar') and ny:
         # one more random array declared after the adapt() calls - and, in mode 2, after the rule was used for the first time.
         # It only appears in the sets: either bounded by 1 in absolute value, or non-negative with a budget row that couples it to
         # z[0] without cutting anything off the projection onto z (the right-hand side is max z[0] over the set + 2)
         if case['late_rvar'] == 2:
             _used = y + 0
+            # the left-hand sides of every other constraint are built now, before the random array exists
+            for ci, con in enumerate(case['cons']):
+                if ci % 2 == 0 and not con.get('vec'):
+                    for ri, row in enumerate(con['rows']):
+                        pre_exprs[(ci, ri)] = _row_expr(row, x, y, z, u, nz, con['style'])
         w_late = m.rvar(2)
         new_sets = []
         for s_, cs in zip(case['sets'], sets_rs):
-            top = None
-            if case['late_rvar'] == 2:
-                e0 = np.zeros(s_['nz'] + s_['nu'])
-                e0[0] = 1.0
-                top = rosets.maximise(s_, e0)[0]
-            if top is None:
+            via = [p_ for p_ in s_['pieces'] if p_.get('via_late')]
+            if not via:
                 new_sets.append(cs + [abs(w_late) <= 1])
             else:
-                new_sets.append(cs + [w_late >= 0, w_late <= 1, w_late.sum() + z[0] <= float(top) + 2.0])
+                new_sets.append(cs + [w_late >= 0, w_late <= 1, w_late.sum() + np.array(via[0]['G'][0]) @ z <= via[0]['h'][0]])
         sets_rs = new_sets
 
     def setarg(k):
@@ -356,9 +371,11 @@ def build(case, order=None):
         con = case['cons'][ci]
         sc = con.get('scale', 1.0)
         cs = []
-        for row in (con['rows'] if not con.get('vec') else [None]):
+        for ri, row in enumerate(con['rows'] if not con.get('vec') else [None]):
             if row is None:
                 e = _vec_expr(con['rows'], x, y, z, u, nz, con['style'])
+            elif (ci, ri) in pre_exprs:
+                e = pre_exprs[(ci, ri)]
             else:
                 e = _row_expr(row, x, y, z, u, nz, con['style'])
             if sc != 1.0:
